@@ -79,7 +79,7 @@ if TYPE_CHECKING:
     from .file import _GitFile
 
 from .errors import PackedRefsException, RefFormatError
-from .file import GitFile, ensure_dir_exists
+from .file import FileLocked, GitFile, ensure_dir_exists
 from .objects import ZERO_SHA, ObjectID, git_line, valid_hexsha
 
 Ref = NewType("Ref", bytes)
@@ -1049,6 +1049,19 @@ class DiskRefsContainer(RefsContainer):
           new_refs: A mapping of ref names to targets; if a target is None that
             means remove the ref
         """
+        self._add_packed_refs(new_refs, prune_only_unchanged=False)
+
+    def _add_packed_refs(
+        self, new_refs: Mapping[Ref, ObjectID | None], prune_only_unchanged: bool
+    ) -> None:
+        """Write refs to packed-refs, then remove their loose files.
+
+        The loose files are removed only once the new packed-refs file is in
+        place (a reader or a crash in between must still find every ref), and
+        each one under the lock of that ref. With ``prune_only_unchanged``
+        (used by pack_refs) a loose ref that no longer holds the packed value
+        is kept: someone updated it in the meantime.
+        """
         if not new_refs:
             return
 
@@ -1064,12 +1077,6 @@ class DiskRefsContainer(RefsContainer):
                     if ref == HEADREF:
                         raise ValueError("cannot pack HEAD")
 
-                    # remove any loose refs pointing to this one -- please
-                    # note that this bypasses remove_if_equals as we don't
-                    # want to affect packed refs in here
-                    with suppress(OSError):
-                        os.remove(self.refpath(ref))
-
                     if target is not None:
                         packed_refs[ref] = target
                     else:
@@ -1082,6 +1089,25 @@ class DiskRefsContainer(RefsContainer):
             # lock is released but before the stat. Reload on the next access
             # instead.
             self._invalidate_packed_refs_cache()
+
+        # remove any loose refs pointing to these -- please note that this
+        # bypasses remove_if_equals as we don't want to affect packed refs
+        # in here
+        for ref, target in new_refs.items():
+            filename = self.refpath(ref)
+            try:
+                lock = GitFile(filename, "wb")
+            except (OSError, FileLocked):
+                # No such directory (no loose ref), or the ref is being
+                # updated by someone else right now: leave it alone
+                continue
+            try:
+                if prune_only_unchanged and self.read_loose_ref(ref) != target:
+                    continue
+                with suppress(OSError):
+                    os.remove(filename)
+            finally:
+                lock.abort()
 
     def get_peeled(self, name: Ref) -> ObjectID | None:
         """Return the cached peeled value of a ref, if available.
@@ -1482,7 +1508,7 @@ class DiskRefsContainer(RefsContainer):
                     pass
 
         if refs_to_pack:
-            self.add_packed_refs(refs_to_pack)
+            self._add_packed_refs(refs_to_pack, prune_only_unchanged=True)
 
 
 def _split_ref_line(line: bytes) -> tuple[ObjectID, Ref]:
